@@ -85,7 +85,7 @@ def run_histories(ck, cfg, n_quick=24, n_thorough=1600):
   """Returns the merged result dict."""
   n = n_quick if ck.tier == "quick" else n_thorough
   seeds = [ck.seed * 100000 + i for i in range(n)]
-  workers = min(16, os.cpu_count() or 1, max(1, n // 6))
+  workers = min(16, os.cpu_count() or 1, max(1, n // 2))
   chunks = [seeds[i::workers] for i in range(workers)]
   args = [(ck.pid, c, cfg) for c in chunks if c]
   if len(args) == 1:
